@@ -7,12 +7,22 @@ A case is JSON-able:
   torrent bencode-able structure (dict with bytes keys, ("d", pairs) for literal dictionaries,
           list, int, bytes) or {"raw": bytes}; the token @S@ inside any byte string stands for
           the absolute path of the sandbox and is substituted when the case is run
-  mode    content | base | default | stdin      which content-root rule is exercised
+  mode    content | base | default | stdin | stdin-content | stdin-base     which content-root rule is exercised
+          (stdin*: the torrent is piped in; plain stdin: no option, the root is the name in the working directory)
   arg     value of --content / --base-directory (bytes, may contain @S@) or None
   input   path of the torrent file relative to the sandbox (also for stdin: where it is kept)
 """
 import hashlib, json, os, shutil, stat, tempfile
 import lib
+
+
+def rule_of(mode):
+    """which option decides the content root"""
+    return {"stdin-content": "content", "stdin-base": "base"}.get(mode, mode)
+
+
+def via_stdin(mode):
+    return mode.startswith("stdin")
 
 PH = b"@S@"
 PHSPLIT = b"@SPLIT@"   # as a list element: the sandbox path, one directory per element, the first with its leading separator
@@ -211,6 +221,7 @@ def read_torrent(tb):
 def content_root(cwd, mode, arg, input_rel, name):
     """the statement's rule, with os.path: --content, else --base-directory joined with the name,
     else the sibling of the torrent file with that name (stdin: the name itself)"""
+    mode = rule_of(mode)
     if mode == "content":
         x = arg
     elif mode == "base":
@@ -296,10 +307,10 @@ def torrent_bytes(case, sandbox):
 
 
 def argv_of(case, sandbox):
-    a = ["torrent", "verify", "--input", "-" if case["mode"] == "stdin" else os.fsdecode(case["input"])]
-    if case["mode"] == "content":
+    a = ["torrent", "verify", "--input", "-" if via_stdin(case["mode"]) else os.fsdecode(case["input"])]
+    if rule_of(case["mode"]) == "content":
         a += ["--content", os.fsdecode(subst(case["arg"], sandbox))]
-    elif case["mode"] == "base":
+    elif rule_of(case["mode"]) == "base":
         a += ["--base-directory", os.fsdecode(subst(case["arg"], sandbox))]
     return a
 
@@ -316,14 +327,14 @@ def run_case(ctx, case, tmp):
     arg = subst(case["arg"], sandbox) if case.get("arg") is not None else None
     before = snapshot(sandbox)
     orc = oracle(tb, sandbox, case["mode"], arg, case["input"])
-    rc, out, err = ctx.imdl(argv, cwd=os.fsdecode(sandbox), stdin=tb if case["mode"] == "stdin" else b"", timeout=120)
+    rc, out, err = ctx.imdl(argv, cwd=os.fsdecode(sandbox), stdin=tb if via_stdin(case["mode"]) else b"", timeout=120)
     after = snapshot(sandbox)
     seed = case.get("seed", 0)
     line = "vcmd %s %s %s %s %s %s %d" % (
         model_fs(sandbox, tree), lib.hexs(sandbox),
-        lib.hexs(arg) if case["mode"] == "content" else "~",
-        lib.hexs(arg) if case["mode"] == "base" else "~",
-        "~" if case["mode"] == "stdin" else lib.hexs(case["input"]),
+        lib.hexs(arg) if rule_of(case["mode"]) == "content" else "~",
+        lib.hexs(arg) if rule_of(case["mode"]) == "base" else "~",
+        "~" if via_stdin(case["mode"]) else lib.hexs(case["input"]),
         lib.hexs(tb), seed)
     return {"case": case, "sandbox": sandbox, "argv": argv, "rc": rc, "stderr": err.decode("utf-8", "replace")[-400:],
             "stdout_len": len(out), "oracle": orc, "unchanged": before == after, "model_line": line, "torrent": tb}
@@ -342,7 +353,7 @@ def describe(rec, model=None):
             "stderr_tail": rec["stderr"], "oracle": {k: (v.hex() if isinstance(v, bytes) else v) for k, v in rec["oracle"].items()},
             "model": model, "sandbox_unchanged": rec["unchanged"], "torrent_bencode": rec["torrent"],
             "reproduce": "./check %s --replay <this file>   (rebuilds the sandbox from `case`, runs `imdl %s` in it%s)"
-                         % (ctx_pid(rec), " ".join(rec["argv"]), ", torrent on stdin" if c["mode"] == "stdin" else "")}
+                         % (ctx_pid(rec), " ".join(rec["argv"]), ", torrent on stdin" if via_stdin(c["mode"]) else "")}
 
 
 def ctx_pid(rec):
@@ -476,17 +487,27 @@ def place(world, mode, r=None, where_ok=True):
     that the content sits where one of the *other* rules would look (not where_ok)"""
     tree = {}
     name = world.name
-    if mode == "content":
+    if mode in ("content", "stdin-content"):
         arg = b"the content" if where_ok else b"elsewhere"
         if world.content is not None:
             tree[b"the content"] = world.content
         inp = b"t.torrent"
-    elif mode == "base":
+        if mode == "stdin-content":
+            tree[b"kept"] = {}
+            inp = b"kept/t.torrent"
+            if not where_ok:      # ... while the content sits where a piped torrent without options would be looked up
+                put_named(tree, [], name, world.content)
+    elif mode in ("base", "stdin-base"):
         arg = b"bd" if where_ok else b"other"
         tree[b"bd"] = {}
         put_named(tree, [b"bd"], name, world.content)
         tree[b"other"] = {}
         inp = b"t.torrent"
+        if mode == "stdin-base":
+            tree[b"kept"] = {}
+            inp = b"kept/t.torrent"
+            if not where_ok:
+                put_named(tree, [], name, world.content)
     elif mode == "default":
         arg = None
         tree[b"sub"] = {}
